@@ -16,8 +16,8 @@ func c13Setup(e *Engine, st *Stats) {
 	var want [2]string
 	var wantState [2]string
 	e.PreExec = func(c *Call) []Clause {
-		w1 := e.W.Clone()
-		w2 := e.W.Clone()
+		w1 := e.W.CloneFresh() // container constructed under the configuration now in force, never reconfigured
+		w2 := e.W.Clone()      // container that lived through the same reconfigurations, then served earlier calls
 		// w2's function objects first serve earlier calls of this history; the ledger is restored afterwards
 		snaps := make([]snapshot, len(w2.Shards))
 		for i, s := range w2.Shards {
@@ -50,7 +50,7 @@ func c13Setup(e *Engine, st *Stats) {
 	}
 	e.PostExec = func(c *Call, res *Result) []Clause {
 		got, gotState := canonOutput(res), canonShard(e.W.Shards[c.Shard])
-		names := []string{"a clone with a fresh container", "a clone whose container served earlier calls"}
+		names := []string{"a clone whose fresh container was constructed under the schedule and epoch now in force", "a clone whose container served earlier calls"}
 		for i := range want {
 			if got != want[i] {
 				return []Clause{clause([]string{"C13"}, c.Fn+"/result-differs", "%s: the result differs between the history's world and %s:\n  %s\n  %s", c.String(), names[i], got, want[i])}
